@@ -70,6 +70,10 @@ Definition spawn_ok (max : nat) (executing : nat) (o : op) (items : list (nat * 
     else if patient then list_eqb item_eqb items [(q, CStarted)]
     else list_eqb item_eqb items [(q, CTooMany)]
   | OpFinish _ => true
+  | OpCancelWait q =>
+    (* cancelled while waiting beyond the limit: never executes, is answered "too many requests";
+       that it gives nothing back is the sample = executing check below (executing is unchanged) *)
+    list_eqb item_eqb items [(q, CTooMany)]
   end.
 
 Fixpoint check (max : nat) (live : list nat) (ops : list op) (os : list obs) : bool :=
